@@ -197,6 +197,9 @@ func BuildCpp(p *dsl.Program, files map[string][]byte, dir string, withTests boo
 		flags = append(flags, "-fsanitize=address,undefined", "-fno-sanitize-recover=undefined")
 	}
 	r := cli.Run(dir, buildTimeout, nil, nil, "g++", append(append([]string{}, flags...), "-o", bin, drv)...)
+	if r.TimedOut {
+		panic("harness: toolchain timed out (machine overloaded?)")
+	}
 	if r.Exit != 0 {
 		root := p.RootPacket()
 		hdr := filepath.Join(out, "include", strcase.ToSnake(root.Name)+".hpp")
@@ -210,7 +213,10 @@ func BuildCpp(p *dsl.Program, files map[string][]byte, dir string, withTests boo
 		for name := range files {
 			if strings.HasSuffix(name, "_test.cpp") {
 				r := cli.Run(dir, buildTimeout, nil, nil, "g++", append(append([]string{}, flags...), "-o", filepath.Join(dir, "emitted_tests"), filepath.Join(out, name))...)
-				if r.Exit != 0 {
+				if r.TimedOut {
+		panic("harness: toolchain timed out (machine overloaded?)")
+	}
+	if r.Exit != 0 {
 					return nil, &BuildError{"cpp", "emitted-tests", string(r.Stderr)}
 				}
 			}
